@@ -59,7 +59,7 @@ RULES = [
     (("ImageConfiguration.Summarize", ""), ("msg", "log only")),
     (("ParseArchitectures", "uniq"), ("sorted", "sort.Slice(archs)")),
     (("Context.WriteSupervisionTree", "services"), ("comm", "creates distinct paths")),
-    (("SPDX.ProcessInternalApkSBOM", ""), ("perm-thm-partial", "C11: order independent for at most one target id")),
+    (("SPDX.ProcessInternalApkSBOM", ""), ("perm-thm-partial", "C11.order_independent_partial: under not-F11d (at most one described element named like its apk per embedded SBOM) the generated document is the same for every map order; C11.order_dependent_multi_target is the witness otherwise (finding F11d)")),
     (("copySBOMElements", "todo"), ("comm", "set membership")),
     (("PurlQualifiers.String", ""), ("sorted", "sort.Slice(q)")),
     (("memFS.WriteHeader", ""), ("comm", "SetXattr on distinct keys")),
